@@ -15,16 +15,20 @@ DRV = 'drv_c14'
 
 REGISTRY = {
     'id': 'C14',
-    'text': 'Lean theorems about an exact rational model of isotope.py (convolution with key merging, element loop, '
-            'normalisation, shifts, merge): sortedness, scale_max / scale_sum, total abundance = product of per-element '
-            'totals, weighted mean = average mass (+ table facts by decide over the generated NIST table), lightest peak, '
-            'commutativity / associativity / push-forward of the convolution, merge adds; the model is tied to /repo by '
-            'differential correspondence (isotopic_distribution, estimate_isotopic_distribution, _calculate_elemental_distribution, '
-            '_convolve_distributions, merge_isotopic_distributions) and every clause of the property is evaluated on the real code; '
-            'the exact multinomial comparison for <= 12 atoms is a TEST (exact rational arithmetic on model and reference)',
-    'note': 'trusted: Lean kernel, axioms propext/Classical.choice/Quot.sound, translate_c14.py (checked against '
-            'peptacular.constants on every run), correspondence harness, float-vs-rational tolerance argument of DESIGN 2.4; '
-            'effect of the 1e-8 floor and of rounding to the resolution on mean/lightest peak is bounded empirically only',
+    'text': 'Lean theorems (all compositions, all option values unless stated) about an exact rational model of isotope.py: sorted_by_mass '
+            '(strict), scale_max, scale_sum for every pruning/rounding option; un-pruned: total_abundance = prod (sum_iso ab)^count, '
+            'weighted mean = average mass + delta + particles (abundances sum to 1 for C,H,N,O,S,P,Se,Cl,Br,Fe by decide over the generated '
+            'NIST table), lightest peak = monoisotopic mass + delta + particles for C,H,N,O,S,P; conv_comm, conv_assoc, conv_pushforward / '
+            'neutron_view_is_binned_pattern (neutron-offset view and mass view are marginals of one joint pattern), merge_adds, '
+            'nfold_conv_eq_multinomial (general, by induction), no_error_after_element_loop. The model is tied to /repo by differential '
+            'correspondence (isotopic_distribution, estimate_isotopic_distribution, _calculate_elemental_distribution, _convolve_distributions, '
+            'merge_isotopic_distributions, round) and every clause of the property is evaluated on the real code; the exact multinomial '
+            'comparison for <= 12 atoms is a TEST (exact rationals: model vs independent Fraction reference, string equal; code vs reference '
+            'within float error and the 1e-8 floor), exhaustive in the thorough tier',
+    'note': 'trusted: Lean kernel, axioms propext/Classical.choice/Quot.sound, translate_c14.py (its table is compared with '
+            'peptacular.constants on every run), correspondence harness, float-vs-rational tolerance argument of DESIGN 2.4; theorems about '
+            'mean/lightest peak are for floor=none, resolution=None: the effect of the 1e-8 floor and of rounding is bounded empirically only; '
+            'known findings: fractional counts (mean shifted by the monoisotopic remainder; neutron-offset mass view scales the remainder by neutron_mass)',
     'technique': 'Lean 4 proof about executable model + differential correspondence + exact reference test',
 }
 
@@ -315,7 +319,7 @@ def run(chk):
                 'output_masses_for_neutron_offset, distribution_abundance in (0,1e6], is_abundance_sum, neutron_mass, precision None|3..8. '
                 'Model sizes are bounded (association-list model, exact rationals): mass view Se<=6, Fe<=25, S/Cl/Br<=60 (20%%: <=200); a case goes to the '
                 'model only when the code returned <= %d peaks (quick) / %d (thorough); larger cases are exercised by the oracle only. '
-                'non-trivial = the code returned >= 2 peaks; distinct = distinct protocol line') % (600, 2500)
+                'non-trivial = the code returned >= 2 peaks; distinct = distinct protocol line') % (600, 1500)
 
     # ---------------------------------------------------------------- table vs constants (ties the translator to the source)
     M = constants.ATOMIC_SYMBOL_TO_ISOTOPE_MASSES_AND_ABUNDANCES
@@ -398,8 +402,8 @@ def run(chk):
 
     tick('round/conv/elem')
     # ---------------------------------------------------------------- (d) isotopic_distribution
-    cap = 600 if quick else 2500
-    n_iso = 100 if quick else 4000
+    cap = 600 if quick else 1500
+    n_iso = 100 if quick else 900
     cases = list(corpus)
     for i in range(n_iso):
         o = gen_opts(rng, constants)
